@@ -771,7 +771,7 @@ def _body(ctx, rng):
 
     # ---- random grids
     nmax = ctx.scale(8, 10)
-    ngrids = ctx.scale(3000, 12000)
+    ngrids = ctx.scale(3000, 10000)
     for it in range(ngrids):
         if it < 30:
             nrows, ncols = [(1, 5), (5, 1), (2, 4), (4, 2), (3, 3), (1, nmax), (nmax, 1), (nmax, nmax), (2, nmax), (3, 4)][it % 10]
@@ -824,7 +824,7 @@ def _body(ctx, rng):
     R.flush()
 
     # ---- histories on one pair of grid objects
-    for it in range(ctx.scale(1500, 12000)):
+    for it in range(ctx.scale(1500, 8000)):
         history_case(R, rng, code_at, alphabet, ctx.scale(6, 8))
         if it % 2000 == 1999:
             R.flush()
